@@ -1055,6 +1055,16 @@ func (fc *FuncCtx) builtin(res ssa.Value, b *ssa.Builtin, c *ssa.CallCommon, arg
 		h := st.get(mh)
 		st.set(mh, fmt.Sprintf("(store %s %s (store (select %s %s) %s false))", h, m.T, h, m.T, args[1].T))
 		return st
+	case "clear":
+		// clear(m): every key is removed (clear of a slice is not used by the repository)
+		if mt, ok := c.Args[0].Type().Underlying().(*types.Map); ok {
+			mh, _ := eng.mapHeaps(mt)
+			ks := eng.sorts.sortOf(mt.Key())
+			st = st.clone()
+			h := st.get(mh)
+			st.set(mh, fmt.Sprintf("(store %s %s ((as const (Array %s Bool)) false))", h, args[0].T, ks))
+			return st
+		}
 	case "ssa:wrapnilchk":
 		fc.val[res] = args[0]
 		return st
@@ -1256,6 +1266,11 @@ func (e *Engine) callMods(caller *ssa.Function, c *ssa.CallCommon, out map[strin
 		case "delete":
 			mh, _ := e.mapHeaps(c.Args[0].Type().Underlying().(*types.Map))
 			out[mh] = true
+		case "clear":
+			if mt, ok := c.Args[0].Type().Underlying().(*types.Map); ok {
+				mh, _ := e.mapHeaps(mt)
+				out[mh] = true
+			}
 		}
 		return
 	}
